@@ -150,6 +150,7 @@ class ProgramTransformer(_ast.Transformer):
                 for element in atom.elements:
                     if len(element.terms) != 1:
                         raise RuntimeError("invalid dynamic formula: {}".format(_tf.str_location(atom.location)))
+                    self.visit(element.condition)
                 atom.term.arguments = [_ast.SymbolicTerm(atom.term.location, _clingo.Function("__t"))]
             elif atom.term.name == "tel" :
                 if self.__head:
